@@ -3,3 +3,5 @@ import PG.Props.C18
 #print axioms PG.C18_pad
 #print axioms PG.C18_sha1_length
 #print axioms PG.C18_version_variant
+#print axioms PG.C18_namespace
+#print axioms PG.C18_empty
